@@ -11,6 +11,10 @@ def run(run):
         run.replay(b, cases, label=c)
         if c == "add":
             run.negative_control_replay(b, cases, corrupt_first(lambda e: e["out"]["kind"] == "ok", lambda e: e["out"]["val"].__setitem__("ns", (e["out"]["val"]["ns"] + 1) % 1000)))
+    # until / since WITH smallestUnit / roundingIncrement / roundingMode (also with the mode left out, and under the gregory calendar):
+    # the RelativeRound instance restricted to date-time differences
+    cases, n = run.gen("mc/MC_RelativeRound.tla", "gen/Gen_C05_rounded.cfg", workers=8, name="rounded", timeout=2400)
+    run.replay(b, cases, label="rounded")
     tr = run.record(b, "c05", 15000 if q else 250000)
     run.validate("trace/Trace_DateTime.tla", "trace/Trace_DateTime.cfg", tr)
     small = head_of(run, tr, 400, "c05.small.trace.ndjson")
